@@ -725,6 +725,48 @@ fn p_mmapped_input(b: &[u8], _: u64) -> R {
 }
 fn seeds_mmapped_input(_r: &mut Rng) -> Vec<Seed> { vec![s0(vec![0x85, 0x01, 4, b'd', b'a', b't', b'a', 2, 9, 9, 42, 7])] }
 
+// degenerate training data (a single symbol): every symbol then costs zero bits, so the decoders can
+// emit output without consuming input - the expected-length argument / size field is the only bound
+const MONO: &[u8] = b"aaaaaaaaaaaaaaaaaaaaaaaaaaaaaaaa";
+thread_local! {
+    static CTXDEC_MONO: Vec<ContextualHuffmanDecoder> = (0..3).map(|o| {
+        let order = [HuffmanOrder::Order0, HuffmanOrder::Order1, HuffmanOrder::Order2][o];
+        ContextualHuffmanDecoder::new(ContextualHuffmanEncoder::new(MONO, order).unwrap())
+    }).collect();
+    static RANS_MONO: (Rans64Encoder<ParallelX1>, RansDecoder<ParallelX1>, Rans64Encoder<ParallelX4>, RansDecoder<ParallelX4>) = {
+        let mut f = [0u32; 256]; f[b'a' as usize] = 32;
+        let e = Rans64Encoder::<ParallelX1>::new(&f).unwrap(); let d = RansDecoder::new(&e);
+        let e4 = Rans64Encoder::<ParallelX4>::new(&f).unwrap(); let d4 = RansDecoder::new(&e4);
+        (e, d, e4, d4)
+    };
+    static COMPS_MONO: Vec<Option<Box<dyn Compressor>>> = (0..8).map(|i| CompressorFactory::create(alg(i), Some(MONO)).ok()).collect();
+}
+fn p_ctx_mono<const O: usize>(b: &[u8], arg: u64) -> R { CTXDEC_MONO.with(|d| d[O].decode(b, usz(arg)).map(|v| obs_bytes(&v)).map_err(es)) }
+fn seeds_ctx_mono<const O: usize>(_r: &mut Rng) -> Vec<Seed> {
+    let order = [HuffmanOrder::Order0, HuffmanOrder::Order1, HuffmanOrder::Order2][O];
+    let mut v = vec![];
+    if let Ok(Ok(b)) = crate::util::guarded(|| ContextualHuffmanEncoder::new(MONO, order).and_then(|e| e.encode(&MONO[..20]))) { v.push(Seed { bytes: b, len: 20 }); }
+    v.push(Seed { bytes: vec![0, 0, 0], len: 20 });
+    v
+}
+fn p_rans_mono<const N: usize>(b: &[u8], arg: u64) -> R {
+    RANS_MONO.with(|x| if N == 1 { x.1.decode(b, usz(arg)) } else { x.3.decode(b, usz(arg)) }.map(|v| obs_bytes(&v)).map_err(es))
+}
+fn seeds_rans_mono<const N: usize>(_r: &mut Rng) -> Vec<Seed> {
+    let mut v = vec![];
+    if let Ok(Ok(b)) = crate::util::guarded(|| RANS_MONO.with(|x| if N == 1 { x.0.encode(&MONO[..20]) } else { x.2.encode(&MONO[..20]) })) { v.push(Seed { bytes: b, len: 20 }); }
+    v.push(Seed { bytes: vec![0, 0, 1, 0, 0, 0, 0, 0], len: 20 });
+    v
+}
+fn p_comp_mono<const A: usize>(b: &[u8], _: u64) -> R {
+    COMPS_MONO.with(|c| match &c[A] { None => Err("unavailable".into()), Some(c) => c.decompress(b).map(|v| obs_bytes(&v)).map_err(es) })
+}
+fn seeds_comp_mono<const A: usize>(_r: &mut Rng) -> Vec<Seed> {
+    let mut v: Vec<Seed> = [&MONO[..20], &MONO[..1]].iter().filter_map(|m| COMPS_MONO.with(|c| c[A].as_ref().and_then(|c| crate::util::guarded(|| c.compress(m).ok()).ok().flatten()))).map(s0).collect();
+    if v.is_empty() { v.push(s0(vec![4, 0, 0, 0, 1, 2, 3, 4])); }
+    v
+}
+
 macro_rules! P {
     ($name:expr, $model:expr, $arg:expr, $cheap:expr, $run:expr, $seeds:expr) => {
         Parser { name: $name, model: $model, has_arg: $arg, cheap: $cheap, run: $run, seeds: $seeds }
@@ -819,6 +861,15 @@ pub fn parsers() -> Vec<Parser> {
         P!("SimdLz77CompressorX8::decompress", 0, false, false, p_slz_x8, seeds_slz_x8),
         P!("decompress_with_simd_lz77", 0, false, false, p_slz_global, seeds_simd_lz77),
         P!("MemoryMappedInput", 0, false, false, p_mmapped_input, seeds_mmapped_input),
+        P!("ContextualHuffmanDecoder/order0/single_symbol_model", 0, true, false, p_ctx_mono::<0>, seeds_ctx_mono::<0>),
+        P!("ContextualHuffmanDecoder/order1/single_symbol_model", 0, true, false, p_ctx_mono::<1>, seeds_ctx_mono::<1>),
+        P!("ContextualHuffmanDecoder/order2/single_symbol_model", 0, true, false, p_ctx_mono::<2>, seeds_ctx_mono::<2>),
+        P!("Rans64Decoder/x1/single_symbol_model", 0, true, false, p_rans_mono::<1>, seeds_rans_mono::<1>),
+        P!("Rans64Decoder/x4/single_symbol_model", 0, true, false, p_rans_mono::<4>, seeds_rans_mono::<4>),
+        P!("Compressor/huffman/decompress/single_symbol_model", 0, false, false, p_comp_mono::<3>, seeds_comp_mono::<3>),
+        P!("Compressor/rans/decompress/single_symbol_model", 0, false, false, p_comp_mono::<4>, seeds_comp_mono::<4>),
+        P!("Compressor/dictionary/decompress/single_symbol_model", 0, false, false, p_comp_mono::<5>, seeds_comp_mono::<5>),
+        P!("Compressor/hybrid/decompress/single_symbol_model", 0, false, false, p_comp_mono::<7>, seeds_comp_mono::<7>),
     ]);
     macro_rules! comp { ($($a:literal),*) => { $(
         v.push(P!(Box::leak(format!("Compressor/{}/decompress", ALGS[$a].0).into_boxed_str()), 0, false, false, p_comp::<$a>, seeds_comp::<$a>));
